@@ -61,6 +61,10 @@ def proportional(p: Poly, w: Poly) -> Fraction | None:
     return k if k != 0 else None
 
 
+class NotReached(AnalysisError):
+    """The entry function, called as specified, returns without ever calling the sweep."""
+
+
 class _Captured(Exception):
     """Raised instead of entering the function whose call is being captured; carries its frame."""
 
@@ -419,13 +423,13 @@ class Sweep:
         finally:
             it.capture = None
             del it.frames[depth:]
-        raise AnalysisError(f"{self.entry.qual}: this call does not reach the sweep in {self.fn.qual}")
+        raise NotReached(f"{self.entry.qual}: this call does not reach the sweep in {self.fn.qual}")
 
     def frame(self, so: Obj | None = None, **roles: Any) -> dict[str, Any]:
         """Initial frame of one iteration: the scalar arguments the sweep is entered with, state
         locals default to None, `self` is a record of the analysed class, roles as given."""
-        args: dict[str, Any] = dict(self.base)
-        args.update({v: None for v in self.svars})
+        args: dict[str, Any] = {v: None for v in self.svars}
+        args.update(self.base)
         sn = self._self_name()
         if sn is not None:
             args[sn] = so if so is not None else self.self_obj()
@@ -507,7 +511,7 @@ def sweep_roles(prog: Program, entry: FuncInfo, entry_sys: str, extra: dict[str,
     if not isinstance(loop.target, ast.Name):
         raise AnalysisError(f"{fn.qual}: the proposal loop does not bind a single loop variable")
     before = _stored(pro)
-    svars = sorted(before & _used([loop]))
+    svars = sorted((before | set(fn.params)) & _used([loop]))
     sw = Sweep(fn, entry, entry_sys, dict(extra), pro, loop, epi, loop.target.id, svars)
     names = sorted(before)
     pfn = synth("prologue", pro, names)
@@ -528,8 +532,10 @@ def sweep_roles(prog: Program, entry: FuncInfo, entry_sys: str, extra: dict[str,
                 or len(outs[0].value) != len(names):
             raise AnalysisError(f"{fn.qual}: the prologue of the sweep is not a straight computation "
                                 f"of the initial state ({len(outs)} abstract paths)")
-        sw.base = {k: v for k, v in got["frame"].items() if isinstance(v, (str, int, float, bool, type(None)))}
-        return dict(zip(names, outs[0].value)), got["incl"], got["excl"], got["zero"]
+        env = dict(got["frame"])  # parameters the sweep is entered with ...
+        env.update(zip(names, outs[0].value))  # ... and the locals its prologue binds
+        sw.base = {k: v for k, v in env.items() if isinstance(v, (str, int, float, bool, type(None)))}
+        return env, got["incl"], got["excl"], got["zero"]
 
     env, incl, excl, zero = run_prologue("strict")
     in_loop = _stored(loop.body)
